@@ -63,6 +63,13 @@ pub fn exec(line: &str) -> String {
         ["asopt", a] => sexp(&json_shape::verif::as_optional(shape!(a))),
         ["asnonopt", a] => sexp(&json_shape::verif::as_non_optional(shape!(a))),
         ["isopt", a] => b(shape!(a).is_optional()),
+        ["kinds", a] => {
+            let s = shape!(a);
+            [s.is_null(), s.is_boolean(), s.is_number(), s.is_string(), s.is_array(), s.is_tuple(), s.is_object(), s.is_oneof()]
+                .iter()
+                .map(|x| if *x { '1' } else { '0' })
+                .collect()
+        }
         ["keys", a] => match shape!(a).keys() {
             Some(ks) => {
                 let mut s = "some".to_string();
